@@ -1176,7 +1176,7 @@ class VF:
             cur = self.read(place)
             if isinstance(cur, Seq):
                 return cur
-            n = T.app('len', self.to_term(cur))
+            n = seq_len(self.to_term(cur))
             return Seq(n, lambda i: Ref(Place(place.root, place.path + (('idx', i),)), mut), 'iter(&%s)' % keyrepr(place), src=self.to_term(cur))
         t = self.to_term(v)
         if T.is_app(t, 'range'):
@@ -1185,7 +1185,7 @@ class VF:
         if T.is_app(t, 'comp'):
             n, lam = t[2]
             return Seq(n, lambda i: inst_comp(t, i), 'comp', src=t)
-        return Seq(T.app('len', t), lambda i: index_term(t, i), 'iter', src=t)
+        return Seq(seq_len(t), lambda i: index_term(t, i), 'iter', src=t)
 
     # ---- calls
     def ev_Call(self, n):
@@ -1386,10 +1386,30 @@ def binder_height(t):
 
 def mk_comp(n, k, elem):
     """[elem | k < n] with canonical bound-variable naming (height based)"""
+    # eta: [X[k] | k < len(X)] is X itself
+    if T.is_app(elem, 'index') and elem[2][1] is k and not any(x is k for x in T.subterms(elem[2][0])) and n is seq_len(elem[2][0]):
+        return elem[2][0]
     h = binder_height(elem) + 1
     bv = T.sym('%%b%d' % h)
     body = T.subst(elem, {k: bv})
     return T.app('comp', n, T.app('lam%d' % h, body))
+
+
+def seq_len(t):
+    """length term of a collection-valued term (sees through comprehension wrappers)"""
+    if T.is_app(t, 'eff') and t[2]:
+        return seq_len(t[2][0])
+    if T.is_app(t, 'comp'):
+        return t[2][0]
+    if T.is_app(t, 'array'):
+        return T.num(len(t[2]))
+    if T.is_app(t, 'repeat'):
+        return t[2][1]
+    if T.is_app(t, 'push'):
+        return T.add(seq_len(t[2][0]), T.ONE)
+    if T.is_app(t, 'upd'):
+        return seq_len(t[2][0])
+    return T.app('len', t)
 
 
 def inst_comp(c, i):
